@@ -133,7 +133,7 @@ pub proof fn lemma_tf_sign(n: int, d: int, q: int, r: int)
 
 /// (s0, e0) = `Repr::new(n, 0)`, ret = `repr_round` of it
 pub proof fn lemma_tf_convert_int<const B: Word>(m: Mode, b: int, p: usize, n: int, s0: int, e0: int, ret: Rounded<Repr<B>>)
-    requires b >= 2, norm_of(b, n, 0, s0, e0), s0 == 0 ==> e0 == 0,
+    requires b >= 2, norm_of(b, n, 0, s0, e0), n == 0 ==> e0 == 0,
         round_once(m, b, p, s0, e0, ret),
     ensures round_val(m, b, p, n, 0, ret),
         ret is Exact ==> tf_int_repr(rd_val(ret)) && rd_val(ret).exponent <= ndigits(b, n),
@@ -143,7 +143,7 @@ pub proof fn lemma_tf_convert_int<const B: Word>(m: Mode, b: int, p: usize, n: i
 }
 /// pos_room (64 * digits <= usize::MAX) passes from an integer to its normalized significand, and gives the exponent room
 pub proof fn lemma_tf_conv_room(b: int, n: int, s0: int, e0: int)
-    requires b >= 2, norm_of(b, n, 0, s0, e0), s0 == 0 ==> e0 == 0, pos_room(ndigits(b, n) as int)
+    requires b >= 2, norm_of(b, n, 0, s0, e0), n == 0 ==> e0 == 0, pos_room(ndigits(b, n) as int)
     ensures pos_room(ndigits(b, s0) as int), e0 + ndigits(b, s0) <= isize::MAX, ndigits(b, s0) <= isize::MAX,
         !(s0 == 0 && e0 != 0),
 {
@@ -154,12 +154,15 @@ pub proof fn lemma_tf_conv_room(b: int, n: int, s0: int, e0: int)
 // ------------------------------------------------------------------------------------------------------------------
 // to_float
 
-pub proof fn lemma_tf_zero(b: int, p: nat, D: int)
+/// numerator zero: every single rounding of 0 is Exact (0, 0); 0 is representable
+pub proof fn lemma_tf_zero<const B: Word>(m: Mode, b: int, pu: usize, D: int)
     requires b >= 2
-    ensures ratio_representable(b, p, 0, D)
+    ensures ratio_representable(b, pu as nat, 0, D),
+        forall|rr: Rounded<Repr<B>>| #[trigger] round_once(m, b, pu, 0, 0, rr) ==> rr is Exact && ratio_round_once(m, b, pu as nat, 0, D, rr),
 {
-    lemma_ipow_pos(b, p);
-    assert(tf_repr_wit(b, p, 0, D, 0, 0, 0));
+    broadcast use ax_ndigits;
+    lemma_ipow_pos(b, pu as nat);
+    assert(tf_repr_wit(b, pu as nat, 0, D, 0, 0, 0));
 }
 
 pub proof fn lemma_tf_ipow1(b: int)
@@ -294,19 +297,13 @@ pub proof fn lemma_tf_exact_iff<const B: Word>(m: Mode, b: int, p: nat, N: int, 
 }
 
 
-/// floor logarithms against the digit count: b^k <= |v| ==> k < digits, |v| < b^k ==> digits <= k
+/// a floor logarithm k of |v| means k + 1 digits (quantified form for a logarithm that has no name in the code)
 pub proof fn lemma_tf_ilog_nd(b: int, v: int)
-    requires b >= 2, v != 0
-    ensures forall|k: nat| #[trigger] ipow(b, k) <= iabs(v) ==> k < ndigits(b, v),
-        forall|k: nat| iabs(v) < #[trigger] ipow(b, k) ==> ndigits(b, v) <= k,
+    requires b >= 2
+    ensures forall|k: nat| #[trigger] tf_ilog_is(b, v, k) ==> ndigits(b, v) == k + 1,
 {
-    broadcast use ax_ndigits;
-    let nd = ndigits(b, v);
-    assert forall|k: nat| #[trigger] ipow(b, k) <= iabs(v) implies k < nd by {
-        if k >= nd { lemma_ipow_mono(b, nd, k); }
-    }
-    assert forall|k: nat| iabs(v) < #[trigger] ipow(b, k) implies nd <= k by {
-        if nd > k { lemma_ipow_mono(b, k, (nd - 1) as nat); }
+    assert forall|k: nat| #[trigger] tf_ilog_is(b, v, k) implies ndigits(b, v) == k + 1 by {
+        lemma_tf_ilog_digits(b, v, k);
     }
 }
 
@@ -415,6 +412,7 @@ pub proof fn lemma_tf_conv_exact<const B: Word>(m: Mode, b: int, pu: usize, mm: 
             assert(((p + 1) - 1) as nat == p);
             lemma_ndigits_unique(b, mm, p + 1);
             let sg: int = if mm < 0 { -1 } else { 1 };
+            assert(sg * P == (if mm < 0 { -P } else { P })) by (nonlinear_arith) requires sg == (if mm < 0 { -1int } else { 1int });
             assert(mm == sg * P);
             lemma_shift_divisible(b, sg, p);
             lemma_tf_ipow1(b);
@@ -464,4 +462,225 @@ pub proof fn lemma_tf_post<const B: Word>(m: Mode, b: int, pu: usize, N: int, D:
     assert(0 - (s - k) == k - s);
     assert(ratio_round_wit(m, b, p, N, D, s, k, mm, ret));
     lemma_tf_exact_iff(m, b, p, N, D, s, k, mm, ret);
+}
+
+// ------------------------------------------------------------------------------------------------------------------
+// Sanity of the specification: `ratio_round_once` determines the value and the flag (at most one answer is accepted, so
+// any other float -- e.g. the double-rounded results of the earlier versions of to_float -- is rejected).
+
+/// the flag of a rounded value: None = Exact
+pub open spec fn tf_flag<T>(r: Rounded<T>) -> Option<Rounding> {
+    match r { Approximation::Exact(_) => None, Approximation::Inexact(_, a) => Some(a) }
+}
+/// scaling numerator and denominator by c > 0 does not change the rounding
+pub proof fn lemma_tf_round_scale(m: Mode, X: int, D: int, c: int, r: int)
+    requires D > 0, c > 0, round_def(m, X, D, r)
+    ensures round_def(m, X * c, D * c, r), (r * D == X) == (r * (D * c) == X * c)
+{
+    let R = r * D;
+    let (X2, D2) = (X * c, D * c);
+    let R2 = r * D2;
+    assert(R2 == R * c) by (nonlinear_arith) requires R2 == r * D2, D2 == D * c, R == r * D;
+    let e = R - X;
+    let e2 = R2 - X2;
+    assert(e2 == e * c) by (nonlinear_arith) requires e2 == R2 - X2, R2 == R * c, X2 == X * c, e == R - X;
+    assert(-D2 < e2 && e2 < D2) by (nonlinear_arith) requires e2 == e * c, D2 == D * c, -D < e, e < D, c > 0;
+    assert((e == 0) == (e2 == 0)) by (nonlinear_arith) requires e2 == e * c, c > 0;
+    assert((e > 0) == (e2 > 0)) by (nonlinear_arith) requires e2 == e * c, c > 0;
+    assert((X > 0) == (X2 > 0) && (X < 0) == (X2 < 0)) by (nonlinear_arith) requires X2 == X * c, c > 0;
+    assert((R > 0) == (R2 > 0) && (R < 0) == (R2 < 0)) by (nonlinear_arith) requires R2 == R * c, c > 0;
+    let (a, a2) = (iabs(e), iabs(e2));
+    assert(a2 == a * c) by (nonlinear_arith) requires e2 == e * c, c > 0, a == (if e < 0 { -e } else { e }), a2 == (if e2 < 0 { -e2 } else { e2 });
+    assert((2 * a <= D) == (2 * a2 <= D2) && (2 * a == D) == (2 * a2 == D2)) by (nonlinear_arith)
+        requires a2 == a * c, D2 == D * c, c > 0;
+}
+/// two p-digit windows around the same number cannot be a factor b^f, f >= 1, apart
+pub proof fn lemma_tf_window_lt(b: int, aN: int, D: int, A1: int, K1: int, A2: int, K2: int, F: int, P: int, Pm: int)
+    requires b >= 2, D > 0, A1 >= 1, K1 >= 1, A2 >= 1, K2 >= 1, F >= b, Pm >= 1, P == b * Pm, aN >= 0,
+        Pm * (D * K1) <= aN * A1, aN * A2 < P * (D * K2), K1 * A2 == F * (K2 * A1),
+    ensures false
+{
+    let z = K2 * A1;
+    let W = D * z;
+    assert(z >= 1) by (nonlinear_arith) requires z == K2 * A1, K2 >= 1, A1 >= 1;
+    assert(W > 0) by (nonlinear_arith) requires W == D * z, D > 0, z >= 1;
+    let mid = aN * A1 * A2;
+    let lhs = Pm * (D * K1);
+    let l2 = lhs * A2;
+    assert(l2 <= mid) by (nonlinear_arith) requires l2 == lhs * A2, lhs <= aN * A1, mid == aN * A1 * A2, A2 >= 1;
+    let PmD = Pm * D;
+    let z1 = K1 * A2;
+    assert(l2 == PmD * z1) by (nonlinear_arith) requires l2 == lhs * A2, lhs == Pm * (D * K1), PmD == Pm * D, z1 == K1 * A2;
+    let Pf = Pm * F;
+    assert(PmD * z1 == Pf * W) by (nonlinear_arith) requires z1 == F * z, W == D * z, PmD == Pm * D, Pf == Pm * F;
+    let rhs = P * (D * K2);
+    let r2 = rhs * A1;
+    let t = aN * A2;
+    assert(mid == t * A1) by (nonlinear_arith) requires mid == aN * A1 * A2, t == aN * A2;
+    assert(t * A1 < r2) by (nonlinear_arith) requires t < rhs, r2 == rhs * A1, A1 >= 1;
+    assert(r2 == P * W) by (nonlinear_arith) requires r2 == rhs * A1, rhs == P * (D * K2), W == D * z, z == K2 * A1;
+    assert(Pf >= P) by (nonlinear_arith) requires Pf == Pm * F, P == b * Pm, F >= b, Pm >= 1;
+    assert(Pf * W >= P * W) by (nonlinear_arith) requires Pf >= P, W > 0;
+}
+/// two representations that equal the same third one are equal
+pub proof fn lemma_tf_same_value_trans(b: int, s1: int, e1: int, s2: int, e2: int, mm: int, e: int)
+    requires b >= 2, same_value(b, s1, e1, mm, e), same_value(b, s2, e2, mm, e)
+    ensures same_value(b, s1, e1, s2, e2)
+{
+    // scale everything to the smallest exponent
+    let lo = if e1 <= e2 { if e1 <= e { e1 } else { e } } else { if e2 <= e { e2 } else { e } };
+    let (d1, d2, d) = ((e1 - lo) as nat, (e2 - lo) as nat, (e - lo) as nat);
+    let (p1, p2, pm) = (ipow(b, d1), ipow(b, d2), ipow(b, d));
+    lemma_ipow_pos(b, d1); lemma_ipow_pos(b, d2); lemma_ipow_pos(b, d);
+    // s1 * p1 == mm * pm
+    if e1 <= e {
+        let g = (e - e1) as nat;
+        lemma_ipow_add(b, g, d1);
+        assert(g + d1 == d);
+        let pg = ipow(b, g);
+        assert(s1 * p1 == mm * pm) by (nonlinear_arith) requires s1 == mm * pg, pm == pg * p1;
+    } else {
+        let g = (e1 - e) as nat;
+        lemma_ipow_add(b, g, d);
+        assert(g + d == d1);
+        let pg = ipow(b, g);
+        assert(s1 * p1 == mm * pm) by (nonlinear_arith) requires mm == s1 * pg, p1 == pg * pm;
+    }
+    if e2 <= e {
+        let g = (e - e2) as nat;
+        lemma_ipow_add(b, g, d2);
+        assert(g + d2 == d);
+        let pg = ipow(b, g);
+        assert(s2 * p2 == mm * pm) by (nonlinear_arith) requires s2 == mm * pg, pm == pg * p2;
+    } else {
+        let g = (e2 - e) as nat;
+        lemma_ipow_add(b, g, d);
+        assert(g + d == d2);
+        let pg = ipow(b, g);
+        assert(s2 * p2 == mm * pm) by (nonlinear_arith) requires mm == s2 * pg, p2 == pg * pm;
+    }
+    // s1 * p1 == s2 * p2, and p1 / p2 differ by b^|e1 - e2|
+    if e1 <= e2 {
+        let g = (e2 - e1) as nat;
+        lemma_ipow_add(b, g, d1);
+        assert(g + d1 == d2);
+        let pg = ipow(b, g);
+        let x = s2 * pg;
+        assert(s1 * p1 == x * p1) by (nonlinear_arith) requires s1 * p1 == s2 * p2, p2 == pg * p1, x == s2 * pg;
+        assert(s1 == x) by (nonlinear_arith) requires s1 * p1 == x * p1, p1 >= 1;
+    } else {
+        let g = (e1 - e2) as nat;
+        lemma_ipow_add(b, g, d2);
+        assert(g + d2 == d1);
+        let pg = ipow(b, g);
+        let x = s1 * pg;
+        assert(s2 * p2 == x * p2) by (nonlinear_arith) requires s1 * p1 == s2 * p2, p1 == pg * p2, x == s1 * pg;
+        assert(s2 == x) by (nonlinear_arith) requires s2 * p2 == x * p2, p2 >= 1;
+    }
+}
+/// one direction of the uniqueness argument: the second witness has the finer (or equal) scaling, s2 - s1 = k2 - k1 = d >= 0
+pub proof fn lemma_tf_unique_step<const B: Word>(m: Mode, b: int, p: nat, N: int, D: int, s1: nat, k1: nat, mm1: int, ra: Rounded<Repr<B>>,
+        s2: nat, k2: nat, mm2: int, rb: Rounded<Repr<B>>)
+    requires b >= 2, p >= 1, D > 0, s1 <= s2, s2 - s1 == k2 - k1,
+        ratio_round_wit(m, b, p, N, D, s1, k1, mm1, ra), ratio_round_wit(m, b, p, N, D, s2, k2, mm2, rb),
+    ensures mm1 == mm2, tf_flag(ra) == tf_flag(rb),
+{
+    let d = (s2 - s1) as nat;
+    let c = ipow(b, d);
+    lemma_ipow_pos(b, d);
+    lemma_ipow_add(b, s1, d);
+    lemma_ipow_add(b, k1, d);
+    let (A1, K1) = (ipow(b, s1), ipow(b, k1));
+    lemma_ipow_pos(b, k1);
+    let (X1, Dn1) = (N * A1, D * K1);
+    let (X2, Dn2) = (N * ipow(b, s2), D * ipow(b, k2));
+    assert(s1 + d == s2 && k1 + d == k2);
+    assert(X2 == X1 * c) by (nonlinear_arith) requires X2 == N * (A1 * c), X1 == N * A1;
+    assert(Dn2 == Dn1 * c) by (nonlinear_arith) requires Dn2 == D * (K1 * c), Dn1 == D * K1;
+    assert(Dn1 > 0) by (nonlinear_arith) requires Dn1 == D * K1, D > 0, K1 >= 1;
+    lemma_tf_round_scale(m, X1, Dn1, c, mm1);
+    lemma_round_def_unique(m, X2, Dn2, mm1, mm2);
+    match (ra, rb) {
+        (Approximation::Inexact(_, a1), Approximation::Inexact(_, a2)) => {
+            lemma_tf_round_scale(Mode::Zero, X1, Dn1, c, mm1 - adj_int(a1));
+            lemma_round_def_unique(Mode::Zero, X2, Dn2, mm1 - adj_int(a1), mm2 - adj_int(a2));
+        }
+        _ => {}
+    }
+}
+/// THE specification is functional: two accepted answers have the same value and the same flag
+pub proof fn lemma_tf_unique<const B: Word>(m: Mode, b: int, p: nat, N: int, D: int, ra: Rounded<Repr<B>>, rb: Rounded<Repr<B>>)
+    requires b >= 2, p >= 1, D > 0, ratio_round_once(m, b, p, N, D, ra), ratio_round_once(m, b, p, N, D, rb)
+    ensures same_value(b, rd_val(ra).significand.v(), rd_val(ra).exponent as int, rd_val(rb).significand.v(), rd_val(rb).exponent as int),
+        tf_flag(ra) == tf_flag(rb),
+{
+    if N == 0 {
+        lemma_tf_ipow1(b);
+        assert(0 * ipow(b, 0) == 0);
+    } else {
+        let (s1, k1, mm1) = choose|s: nat, k: nat, mm: int| #[trigger] ratio_round_wit(m, b, p, N, D, s, k, mm, ra);
+        let (s2, k2, mm2) = choose|s: nat, k: nat, mm: int| #[trigger] ratio_round_wit(m, b, p, N, D, s, k, mm, rb);
+        let (A1, K1, A2, K2) = (ipow(b, s1), ipow(b, k1), ipow(b, s2), ipow(b, k2));
+        lemma_ipow_pos(b, s1); lemma_ipow_pos(b, k1); lemma_ipow_pos(b, s2); lemma_ipow_pos(b, k2);
+        let (P, Pm) = (ipow(b, p), ipow(b, (p - 1) as nat));
+        lemma_ipow_pos(b, (p - 1) as nat);
+        assert(P == b * Pm);
+        lemma_tf_abs_mul(N, A1);
+        lemma_tf_abs_mul(N, A2);
+        let aN = iabs(N);
+        lemma_tf_ipow1(b);
+        if k1 + s2 > k2 + s1 {
+            let f = (k1 + s2 - k2 - s1) as nat;
+            lemma_ipow_add(b, k1, s2);
+            lemma_ipow_add(b, k2, s1);
+            lemma_ipow_add(b, f, k2 + s1);
+            assert(f + (k2 + s1) == k1 + s2);
+            lemma_ipow_mono(b, 1, f);
+            lemma_tf_window_lt(b, aN, D, A1, K1, A2, K2, ipow(b, f), P, Pm);
+        } else if k2 + s1 > k1 + s2 {
+            let f = (k2 + s1 - k1 - s2) as nat;
+            lemma_ipow_add(b, k2, s1);
+            lemma_ipow_add(b, k1, s2);
+            lemma_ipow_add(b, f, k1 + s2);
+            assert(f + (k1 + s2) == k2 + s1);
+            lemma_ipow_mono(b, 1, f);
+            lemma_tf_window_lt(b, aN, D, A2, K2, A1, K1, ipow(b, f), P, Pm);
+        }
+        assert(k1 - s1 == k2 - s2);
+        if s1 <= s2 {
+            lemma_tf_unique_step(m, b, p, N, D, s1, k1, mm1, ra, s2, k2, mm2, rb);
+        } else {
+            lemma_tf_unique_step(m, b, p, N, D, s2, k2, mm2, rb, s1, k1, mm1, ra);
+        }
+        lemma_tf_same_value_trans(b, rd_val(ra).significand.v(), rd_val(ra).exponent as int,
+            rd_val(rb).significand.v(), rd_val(rb).exponent as int, mm1, k1 - s1);
+    }
+}
+/// known answers (regression inputs of the two repairs): the spec accepts the correct float and rejects what the earlier
+/// versions returned.  1497/1000 -> 1 digit, HalfAway, base 10: correct 1 (Inexact, NoOp); double rounding gave 2.
+/// 127/26 -> 1 digit, HalfAway, base 3: correct 2 * 3^1 (Inexact, AddOne); the sticky digit gave 1 * 3^1.
+pub proof fn lemma_tf_known_answers(good10: Rounded<Repr<10>>, bad10: Rounded<Repr<10>>, good3: Rounded<Repr<3>>, bad3: Rounded<Repr<3>>)
+    requires
+        good10 matches Approximation::Inexact(r, a) && r.significand.v() == 1 && r.exponent == 0 && a == Rounding::NoOp,
+        rd_val(bad10).significand.v() == 2 && rd_val(bad10).exponent == 0,
+        good3 matches Approximation::Inexact(r, a) && r.significand.v() == 2 && r.exponent == 1 && a == Rounding::AddOne,
+        rd_val(bad3).significand.v() == 1 && rd_val(bad3).exponent == 1,
+    ensures
+        ratio_round_once(Mode::HalfAway, 10, 1, 1497, 1000, good10), !ratio_round_once(Mode::HalfAway, 10, 1, 1497, 1000, bad10),
+        ratio_round_once(Mode::HalfAway, 3, 1, 127, 26, good3), !ratio_round_once(Mode::HalfAway, 3, 1, 127, 26, bad3),
+{
+    lemma_tf_ipow1(10);
+    lemma_tf_ipow1(3);
+    // 1497/1000 = 1.497: unit 10^0, s = k = 0, mm = 1
+    assert(ratio_round_wit(Mode::HalfAway, 10, 1, 1497, 1000, 0, 0, 1, good10));
+    if ratio_round_once(Mode::HalfAway, 10, 1, 1497, 1000, bad10) {
+        lemma_tf_unique(Mode::HalfAway, 10, 1, 1497, 1000, good10, bad10);
+        assert(false);
+    }
+    // 127/26 = 4.88..: unit 3^1, s = 0, k = 1, mm = 2 (4.88 / 3 = 1.63 -> 2), trunc = 1, adj = +1
+    assert(ratio_round_wit(Mode::HalfAway, 3, 1, 127, 26, 0, 1, 2, good3));
+    if ratio_round_once(Mode::HalfAway, 3, 1, 127, 26, bad3) {
+        lemma_tf_unique(Mode::HalfAway, 3, 1, 127, 26, good3, bad3);
+        assert(false);
+    }
 }
